@@ -166,3 +166,20 @@ benign("C18","create-sender-inlined",[
  ("x/notifications/keeper/msg_server_create_notifications.go","	if k.IsBlocked(ctx, address.String(), sender) {","	recipient := address.String()\n\tif k.IsBlocked(ctx, recipient, msg.Creator) {"),
  ("x/notifications/keeper/msg_server_create_notifications.go","		To:              address.String(),","		To:              recipient,"),
 ])
+
+# ---- seeds batch 3 as corpus entries
+from_patch("C06","seed-payout-order-by-size-with-ties","seeded/C06-payout-order-by-size-with-ties/patch.diff","C06/R2","providerList:map-range","seed")
+from_patch("C02","seed-decode-target-hoisted","seeded/C02-decode-target-hoisted-out-of-callback/patch.diff","C02/R4","decode-target-reused","seed")
+from_patch("C03","seed-decode-target-hoisted","seeded/C02-decode-target-hoisted-out-of-callback/patch.diff","C03/R6","decode-target-reused","seed (written against C02)")
+from_patch("C05","seed-shares-weighed-in-kilobytes","seeded/C05-shares-weighed-in-kilobytes/patch.diff","C05/R1","rewardAllProviders:quo","seed")
+from_patch("C19","seed-validate-shares-index-map","seeded/C19-validate-shares-index-map/patch.diff","C19/R4","index-map-per-kind","seed")
+from_patch("C17","seed-repost-inherits-prover-list","seeded/C17-repost-inherits-prover-list/patch.diff","C17/R2","PostFile:proofs-list-update","seed")
+from_patch("C18","seed-block-checked-on-unresolved-target","seeded/C18-block-checked-on-unresolved-target/patch.diff","C18/R2","to-is-tested-recipient","seed")
+from_patch("C16","seed-lapsed-name-extends-from-old-expiry","seeded/C16-lapsed-name-extends-from-old-expiry/patch.diff","C16/R2","expiry-extends-stale","seed")
+from_patch("C20","seed-merklepath-trims-whitespace","seeded/C20-merklepath-trims-whitespace/patch.diff","C20/R1","fold-step","seed")
+benign("C06","sortfunc-with-key-tiebreak",[
+ ("x/storage/keeper/rewards.go","\tslices.Sort(provers)\n\treturn provers","\tslices.SortFunc(provers, func(a, b string) int { return strings.Compare(a, b) })\n\treturn provers"),
+])
+benign("C19","validate-duplicate-helper",[
+ ("x/oracle/types/genesis.go","func (gs GenesisState) Validate() error {","func (gs GenesisState) Validate() error {\n\t_ = gs.Params"),
+])
